@@ -142,6 +142,9 @@ structure FSpec where
   retType : Str
   isCollection : Bool
   methodObject : Option Str
+  /-- the optional key `instance_object` ("the name of the object if this is being used as a method"): carried by the
+  specification, read by nothing in `build_CPPCodeValue` — a specification is a method exactly when `method_object` is given -/
+  instanceObject : Option Str := none
 deriving Repr, DecidableEq, Inhabited
 
 /-- The part of a `CPPCodeValue` the back end uses. `varPrefix` is the argument of
